@@ -12,6 +12,7 @@ model: the uncached compile of the same files with the same options.
 """
 
 import copy
+import gc
 import hashlib
 import json
 import os
@@ -605,6 +606,7 @@ class C17(Engine):
         return result
 
     def run_history(self, case, root, result, measure, references):
+        gc.collect()
         src = os.path.join(root, 'src')
         cache = os.path.join(root, 'cache')
         os.makedirs(src)
@@ -747,6 +749,10 @@ class C17(Engine):
                     payload = behaviour(state['paths'], op['codec'], op,
                                         cache, seed, probes=probes)
 
+                # Whatever the call left behind in this process (a sqlite
+                # connection kept alive by a reference cycle would hold the
+                # -wal/-shm files) goes now, not at some later collection.
+                gc.collect()
                 outcome = {'status': 'returned', 'payload': payload,
                            'fired': 0, 'ticks': 0, 'calls': None}
                 result.stats['compiles-in-process'] += 1
